@@ -141,7 +141,7 @@ theorem observed_operand_is_pipeline_result (opts : Opts) (binder : Option Op) (
 /-- ... and its first component is what the update returns without an observer: the value of `let(x => P) -> [$x.u(..), $x]`
     starts with the value of `P.u(..)` -/
 theorem observed_update_is_unobserved_update (opts : Opts) (binder : Option Op) (ops : List Op) (u : Op) (data : Value)
-    (v : Value) (hu : ∀ root o, runOpR opts root u o = runOp opts u o)
+    (v : Value) (hu : ∀ root o, runOpR opts root u o = runOp opts u o) (hf : u.functionStyleSet = false)
     (h : runObserve opts binder ops (.letPair u) data = .ok v) :
     ∃ w rest, (v = list (w :: rest) ∨ v = tuple (w :: rest)) ∧ runPipeLet opts binder (ops ++ [u]) data = .ok w := by
   simp only [runObserve, bind, Except.bind] at h
@@ -155,13 +155,22 @@ theorem observed_update_is_unobserved_update (opts : Opts) (binder : Option Op) 
       simp only [ho] at h
       obtain ⟨a, ha, hr⟩ := letPair_parts opts u o _ ho
       subst hr
+      have hany : (opts.noSets && ops.any Op.functionStyleSet) = false := by
+        cases hc : (opts.noSets && ops.any Op.functionStyleSet) with
+        | false => rfl
+        | true => simp [runStages, hc, bind, Except.bind] at hs
+      have hany2 : (opts.noSets && (ops ++ [u]).any Op.functionStyleSet) = false := by
+        rw [List.any_append]
+        simp only [List.any_cons, List.any_nil, hf, Bool.or_false]
+        exact hany
       have hrun : runPipeLet opts binder (ops ++ [u]) data = finalise opts a := by
-        simp only [runPipeLet, runStages, bind, Except.bind] at hs ⊢
+        simp only [runPipeLet, runStages, bind, Except.bind, hany, hany2] at hs ⊢
         cases hroot : rootObj opts binder data with
         | error e => simp [hroot] at hs
         | ok root =>
           simp only [hroot] at hs ⊢
           rw [List.foldlM_append]
+          simp at hs
           simp [hs, bind, Except.bind, hu, ha, pure, Except.pure]
       rw [hrun]
       simp only [finaliseParts, bind, Except.bind, pure, Except.pure, List.mapM_cons, List.mapM_nil] at h
@@ -240,6 +249,7 @@ example : runObserve {} none [] (.letPair (.insert 0 (int 0))) (iter [int 1]) = 
 /-- instances of the hypotheses of `observed_update_is_unobserved_update` for the updating functions -/
 example (opts : Opts) (p : Int) (v : Value) : ∀ root o, runOpR opts root (.insert p v) o = runOp opts (.insert p v) o := by
   intro _ _; rfl
+example (p : Int) (v : Value) : (Op.insert p v).functionStyleSet = false := rfl
 example (opts : Opts) (ks : VL) : ∀ root o, runOpR opts root (.deleteAll ks) o = runOp opts (.deleteAll ks) o := by
   intro _ _; rfl
 
